@@ -242,6 +242,19 @@ def tab_dialects(repo, tier="quick"):
                 problems.append("%s has default %r, documented %r" % (k, default, w["default"]))
         if bool(accept) != want["free_keywords"]:
             problems.append("free keywords accepted: %s, documented %s" % (accept, want["free_keywords"]))
+        # a second table handed to create_dialect: harmless as long as create_dialect ignores it (it does on the pinned tree);
+        # once it is read there, its entries are further parameters of the signature, i.e. further positional slots
+        callnode = m.constants[sig.id]
+        extra = None
+        if isinstance(callnode, ast.Call):
+            extra = next((k.value for k in callnode.keywords if k.arg == "optional_attributes"), callnode.args[1] if len(callnode.args) > 1 else None)
+        if isinstance(extra, ast.Dict) and extra.keys:
+            cd = m.function("create_dialect")
+            reads = any(isinstance(x, ast.Name) and x.id == "optional_attributes" and isinstance(x.ctx, ast.Load) for x in ast.walk(cd.node))
+            if reads:
+                names = [k.value for k in extra.keys if isinstance(k, ast.Constant)]
+                problems.append("optional attributes %s are turned into parameters by create_dialect: positional values beyond %s are accepted instead of rejected"
+                                % (names, want["positional_order"]))
         try:
             rename = fold_const(bound.get("arg_to_fullname"), m) if bound.get("arg_to_fullname") is not None else {}
         except ValueError:
